@@ -27,9 +27,12 @@ SCENARIOS = {
     "unreduced": ([2, 2, 3], [(-1, -1), (-1, -1), (0, 1)], [(1, 1), (1, 1), (2, 1)]),
     "clone": ([4, 4, 4], [(-1, -1), (-1, -1), (0, 1)], [(2, 2), (2, 2), (0, 4)]),
     "trio4_child_parent": ([4, 4, 4, 4, 4], [(-1, -1), (-1, -1), (0, 1), (-1, -1), (2, 3)], [(2, 2)] * 5),
+    "trio6": ([6, 6, 6], [(-1, -1), (-1, -1), (0, 1)], [(3, 3)] * 3),
+    "duo6": ([6, 6], [(-1, -1), (0, -1)], [(3, 3)] * 2),
+    "mixed_6x4_5": ([6, 4, 5], [(-1, -1), (-1, -1), (0, 1)], [(3, 3), (2, 2), (3, 2)]),
     "mixed_then_child": ([4, 2, 3, 2, 2], [(-1, -1), (-1, -1), (0, 1), (-1, -1), (3, 1)], [(2, 2), (1, 1), (2, 1), (1, 1), (1, 1)]),
 }
-UNBALANCED = {"mixed_4x2_3", "mixed_2x4_3", "unbalanced31", "unbalanced13", "unreduced", "mixed_then_child"}
+UNBALANCED = {"mixed_4x2_3", "mixed_2x4_3", "unbalanced31", "unbalanced13", "unreduced", "mixed_then_child", "mixed_6x4_5"}
 
 
 def make_pedigree(rng, name=None):
@@ -37,7 +40,7 @@ def make_pedigree(rng, name=None):
         name = str(rng.choice(sorted(SCENARIOS)))
     ploidies, parents, tau = SCENARIOS[name]
     n = len(ploidies)
-    n_haps = int(rng.choice([2, 3, 3, 4])) if max(ploidies) <= 4 else 2
+    n_haps = int(rng.choice([2, 3, 3, 4])) if max(ploidies) <= 4 else int(rng.choice([2, 3, 4]))
     n_pos = int(rng.integers(1, 4))
     haps, n_alleles = gen.gen_haplotype_set(rng, n_haps, n_pos)
     n_haps = len(haps)
